@@ -34,6 +34,9 @@ def gen_scenarios(rng):
     if mode == 'same':
         sc = scenario.gen_scenario(rng, want={'flavor': rng.choice(['r', 'r', 'c99', 'cxx'])})
         sc.name = 's0'
+        if sc.flavor == 'r' and rng.random() < 0.35:
+            # serialized tables: loaded once (by whichever instance gets there first), shared by all instances
+            sc.tables_file = True
         return [sc]
     scs = []
     n = rng.randint(2, 3)
@@ -99,17 +102,42 @@ def gen_plan(rng, scs):
         p.insts.append(it)
     if len(p.insts) < 2:
         return None
+    if len(scs) == 1 and scs[0].tables_file:
+        for it in p.insts:
+            top = []
+            for op in it.top:
+                top.append(op)
+                if op.name == 'INIT' and not any(o.name == 'TABLES_LOAD' for o in top):
+                    top.append(Op('TABLES_LOAD', a=0))
+            it.top = top
+        p.tfiles = [{'parts': ['main']}]
     p.sched = [rng.randint(0, 5) for _ in range(rng.randint(5, 60))]
     if rng.random() < 0.2:
         p.sched = [1]      # strict round robin
     return p
 
 
+def set_tables_path(p, b, scs):
+    if p.tfiles and len(scs) == 1 and scs[0].tables_file:
+        import os
+        p.tpaths = {'main': os.path.join(os.path.dirname(b.c_path), scs[0].name + '.tables')}
+
+
 def solo_plan(p, i):
     q = Plan()
     q.junk_seed = p.junk_seed
     q.junk_pat = p.junk_pat
+    q.tfiles = copy.deepcopy(p.tfiles)
+    q.tpaths = dict(p.tpaths) if p.tpaths else p.tpaths
     q.insts = [copy.deepcopy(p.insts[i])]
+    if q.tfiles and not any(op.name == 'TABLES_LOAD' for op in q.insts[0].top):
+        # alone, the instance has to load the shared tables itself
+        top = []
+        for op in q.insts[0].top:
+            top.append(op)
+            if op.name == 'INIT' and not any(o.name == 'TABLES_LOAD' for o in top):
+                top.append(Op('TABLES_LOAD', a=0))
+        q.insts[0].top = top
     q.sources = []
     for s in p.sources:
         if s.inst == i:
@@ -119,22 +147,34 @@ def solo_plan(p, i):
     return q
 
 
-def project(res, i, srcmap=None):
+def project(res, i, srcmap=None, tables=False):
     """what instance i did, without scheduling artefacts"""
     out = []
+    loading = False
+    ids = {}
     for ev in res.events:
         if ev.get('inst') != i:
             continue
         k = ev['k']
         if k == 'S':
             continue
+        # the serialized tables are loaded by whichever instance gets there first: what an instance does
+        # is compared without the loading itself (op, reads of the tables file, allocations of the loader)
+        if k in ('P', 'K'):
+            loading = ev.get('op') == 'TABLES_LOAD'
+        elif k in ('Z', 'D'):
+            loading = False
+        if loading:
+            continue
         item = [k]
         for a in sorted(ev):
             if a in ('seq', 'inst', 'k'):
                 continue
+            if tables and k in ('Z', 'D') and a in ('bytes', 'live', 'tables'):
+                continue      # whether this instance holds the shared tables depends on who came first
             v = ev[a]
             if a in ('id', 'old') and isinstance(v, str) and '.' in v:
-                v = v.split('.', 1)[1]
+                v = ids.setdefault(v.split('.', 1)[1], len(ids))    # numbered by first appearance
             if a == 'src' and srcmap is not None and isinstance(v, int):
                 v = srcmap.get(v, v)
             if a == 'h' and srcmap is not None and isinstance(v, int) and ev.get('op') in ('LEX', 'SET_YYIN', 'RESTART', 'NEWFILE', 'CREATE_BUF', 'PUSHNEW', 'SWITCHNEW') and v >= 0:
@@ -176,8 +216,8 @@ def judge(ctx, b, p, r):
         runs['solo%d' % i] = rs
         if sb.status_class(rs):
             continue
-        a = project(r, i, src_map(p, i))
-        c = project(rs, 0)
+        a = project(r, i, src_map(p, i), tables=bool(p.tfiles))
+        c = project(rs, 0, tables=bool(p.tfiles))
         if a != c:
             n = min(len(a), len(c))
             j = next((j for j in range(n) if a[j] != c[j]), n)
@@ -214,7 +254,10 @@ def work(ctx, idx):
     for j in range(cfg['plans']):
         p = gen_plan(ctx.rng('scn', idx, 'plan', j), scs)
         if p is not None:
+            set_tables_path(p, b, scs)
             plans.append(('p%d' % j, p))
+    if len(scs) == 1 and scs[0].tables_file:
+        wr.stats['mode:shared-serialized-tables'] += 1
     res = common.run_batch(b.exe, [(k, p.text()) for k, p in plans])
     per_class = collections.Counter()
     for k, p in plans:
@@ -242,7 +285,7 @@ def work(ctx, idx):
             case = Case(ID, {('s%d' % i): sc for i, sc in enumerate(scs)}, p, meta={'scn': idx, 'kind': 'baton', 'n': len(scs)})
             wr.findings.append(Finding(v.cls, v.detail, case, v.seq, 'scn %d %s' % (idx, k)))
     # ---- free-running supplement under ThreadSanitizer (same-scanner reentrant only)
-    if idx < cfg['tsan_scenarios'] and all(s.flavor != 'nr' for s in scs):
+    if idx < cfg['tsan_scenarios'] and all(s.flavor != 'nr' and not s.tables_file for s in scs):
         bt = ctx.build_multi(scs, san=False, tsan=True) if len(scs) > 1 else ctx.build(scs[0], san=False, tsan=True)
         if bt.ok:
             for j in range(cfg['tsan_plans']):
@@ -291,6 +334,7 @@ def evaluate(ctx, case):
     b = ctx.build_multi(scs) if n > 1 else ctx.build(scs[0])
     if not b.ok:
         return [], {}
+    set_tables_path(case.plan, b, scs)
     r = common.run_one(b.exe, case.plan.text(), timeout=ctx.run_timeout)
     viols, runs = judge(ctx, b, case.plan, r)
     return [v for v in viols if v.cls in CLASSES], runs
